@@ -5,6 +5,7 @@ scheduler harness harness/spin_drv.cc (real std::threads, real lock code, chosen
 against the extracted model ocaml/spin_driver.ml."""
 import itertools
 import os
+import re
 import sys
 
 import pv
@@ -113,16 +114,67 @@ def tsan_reports(text):
     return text.count("WARNING: ThreadSanitizer")
 
 
+# ThreadSanitizer itself did not come up (ASLR layout it cannot map, `ulimit -v`, no memory): such a run
+# says nothing about the code -- neither "0 data races" nor "racy"
+TSAN_START_RE = re.compile(r"^.*(FATAL: ThreadSanitizer|ThreadSanitizer: CHECK failed|ThreadSanitizer:? failed to |"
+                           r"ThreadSanitizer: (?:out of memory|can(?:'t|not) )|unexpected memory mapping|"
+                           r"ThreadSanitizer: .*requires? .*(?:personality|ASLR|address space)).*$", re.M)
+
+
+def tsan_env_problem(ctx, what, rc, out):
+    """True (after reporting it once per place) when the ThreadSanitizer runtime failed to start / died
+    on its own: an environment problem, reported as a violation WITHOUT a failing input -- the tsan part
+    of the property was not shown to hold on this run, and nothing was shown to be wrong either."""
+    m = TSAN_START_RE.search(out)
+    if not m:
+        return False
+    line = m.group(0).strip()[:300]
+    ctx.violation("tsan-environment", {"kind": "environment", "what": what, "rc": rc, "message": line, "tail": out[-1500:]}, False,
+                  "ThreadSanitizer could not start / aborted in this environment during `%s` (rc=%d: %s): this is an environment "
+                  "problem (ASLR layout, address-space limit), the run is neither clean nor racy; the ThreadSanitizer part of C19 was not checked"
+                  % (what, rc, line))
+    return True
+
+
+def padded(cases, out):
+    """driver output aligned with the cases; a driver that stopped early leaves `<no output>`"""
+    return [out[i] if i < len(out) else "<no output>" for i in range(len(cases))]
+
+
+def parse_found(o):
+    """`found <schedule> <reason>` of the explorer; the schedule is empty when the initial state is already bad"""
+    parts = o.split(" ")
+    if len(parts) == 3 and parts[0] == "found":
+        return (parts[1] or "-"), parts[2]
+    parts = o.split()
+    if len(parts) == 2 and parts[0] == "found":
+        return "-", parts[1]
+    return None
+
+
+def explorer_stopped(ctx, what, lines, rc, out):
+    """every configuration must be answered by `none` or `found ..`; anything else (exit code, missing
+    line, exception of the driver) means the search did not cover what the evidence would claim"""
+    bad = [(l, o) for l, o in zip(lines, padded(lines, out)) if not (o == "none" or parse_found(o))]
+    if rc == 0 and not bad:
+        return False
+    ctx.violation("explorer", {"kind": "explorer-stopped-early", "what": what, "rc": rc, "unanswered": bad[:5]}, False,
+                  "the model explorer (%s) stopped early: rc=%d, %d of %d configurations not answered (first: %s)"
+                  % (what, rc, len(bad), len(lines), bad[0] if bad else "-"))
+    return True
+
+
 def search_failing_schedule(ctx, model_gen, model_rev, impl):
     """gen_matches no longer holds: bounded search, in the model of the REGENERATED program, for a
     schedule on which the changed code violates the property; replay on the real code."""
     lines = ["explore %s %d %s" % (k, d, cl) for (k, cl, d) in EXPLORE]
     rc, out = pv.run_lines(model_gen, lines, timeout=900, args="gen")
+    explorer_stopped(ctx, "explore, regenerated spinlock program", lines, rc, out)
     found = []
-    for (k, cl, d), o in zip(EXPLORE, out):
-        if o.startswith("found"):
-            _, sched, why = o.split()
-            found.append((k, cl, sched, why))
+    for (k, cl, d), o in zip(EXPLORE, padded(lines, out)):
+        f = parse_found(o)
+        if f:
+            found.append((k, cl, f[0], f[1]))
     ctx.cov["gen_search"] = {"configurations": len(EXPLORE), "failing_schedules_found": len(found),
                              "explorer_rc": rc, "reasons": sorted({f[3] for f in found})}
     if not found:
@@ -134,11 +186,15 @@ def search_failing_schedule(ctx, model_gen, model_rev, impl):
             continue
         done.add(why)
         case = "run %s %s %s" % (k, cl, sched)
-        _, o_impl = pv.run_lines(impl, [case], timeout=400)
-        _, o_rev = pv.run_lines(model_rev, [case], timeout=60)
+        rc_i, o_impl = pv.run_lines(impl, [case], timeout=400)
+        rc_r, o_rev = pv.run_lines(model_rev, [case], timeout=60)
         observed = []
         impl_line = o_impl[0] if o_impl else "<no output>"
         rev_line = o_rev[0] if o_rev else "<no output>"
+        if rc_i != 0:
+            observed.append("the driver running the real code ended with exit code %d on this schedule" % rc_i)
+        if rc_r != 0:
+            observed.append("(the model driver ended with exit code %d)" % rc_r)
         if impl_line != rev_line:
             observed.append("real code deviates from the proved behaviour on this schedule")
         if any(":h" in t and len(t.split(":h")[1]) >= 2 for t in impl_line.split()):
@@ -148,9 +204,14 @@ def search_failing_schedule(ctx, model_gen, model_rev, impl):
             try:
                 impl_t = pv.build_harness("tsan", "spin_drv", HARNESS_EXTRA)
                 rc_t, o_t = pv.sh(impl_t, inp=case + "\n", timeout=900, env=TSAN_ENV)
-                tsan_n = tsan_reports(o_t)
-                if tsan_n:
-                    observed.append("ThreadSanitizer reports %d data race(s) on the real code under this schedule" % tsan_n)
+                if tsan_env_problem(ctx, "spin_drv.tsan < %s" % case, rc_t, o_t):
+                    observed.append("(ThreadSanitizer could not start in this environment: no race verdict for this schedule)")
+                else:
+                    tsan_n = tsan_reports(o_t)
+                    if tsan_n:
+                        observed.append("ThreadSanitizer reports %d data race(s) on the real code under this schedule" % tsan_n)
+                    elif rc_t != 0:
+                        observed.append("the ThreadSanitizer build of the driver ended with exit code %d under this schedule" % rc_t)
             except pv.BuildError as e:
                 observed.append("(tsan build failed: %s)" % str(e)[-200:])
         obj = {"kind": "gen-matches-broken", "obligation": "gen_matches (coq/Spin/GenMatches.v): SpinGen.prog = reviewed_prog",
@@ -171,10 +232,13 @@ def identifiable_tsan(ctx):
     runs = []
     for cmd in ("idrace 400 4", "idstress %d 4 20000" % seed):
         rc, out = pv.sh("%s %s" % (impl_t, cmd), timeout=600, env=TSAN_ENV)
+        if tsan_env_problem(ctx, "spin_drv.tsan %s" % cmd, rc, out):
+            runs.append({"cmd": cmd, "rc": rc, "tsan_reports": None, "lines": [], "environment_problem": True})
+            continue
         k = tsan_reports(out)
         lines = [l for l in out.splitlines() if l.startswith(("idrace", "stress"))]
         runs.append({"cmd": cmd, "rc": rc, "tsan_reports": k, "lines": lines})
-        if rc != 0 or k or "FAIL" in out:
+        if rc != 0 or k or "FAIL" in out or not lines:
             first = out[out.find("WARNING: ThreadSanitizer"):][:1800] if k else ""
             ctx.violation("tsan-identifiable",
                           {"kind": "tsan-identifiable", "cmd": "%s %s" % (impl_t, cmd), "harness_args": cmd, "rc": rc,
@@ -193,10 +257,11 @@ def search_mixins(ctx, model, tsan_runs):
     for strict in ("0", "1"):
         lines = ["mexplore %s %d %s" % (strict, d, cl) for (cl, d) in MEXPLORE]
         rc, out = pv.run_lines(model, lines, timeout=600, args="gen")
-        for (cl, d), o in zip(MEXPLORE, out):
-            if o.startswith("found"):
-                _, sched, why = o.split()
-                found.append((cl, sched, why))
+        explorer_stopped(ctx, "mexplore strict=%s, regenerated mixin bodies" % strict, lines, rc, out)
+        for (cl, d), o in zip(MEXPLORE, padded(lines, out)):
+            f = parse_found(o)
+            if f:
+                found.append((cl, f[0], f[1]))
         if found:
             break
     ctx.cov["gen_search_mixins"] = {"configurations": len(MEXPLORE), "failing_schedules_found": len(found),
@@ -205,7 +270,8 @@ def search_mixins(ctx, model, tsan_runs):
         return False
     cl, sched, why = sorted(found, key=lambda f: len(f[1]))[0]
     observed = ["`spin_drv.tsan %s`: %s, %d ThreadSanitizer report(s)" % (r["cmd"], "; ".join(r["lines"]), r["tsan_reports"])
-                for r in tsan_runs if r["rc"] != 0 or r["tsan_reports"] or any("FAIL" in l for l in r["lines"])]
+                for r in tsan_runs if not r.get("environment_problem")
+                and (r["rc"] != 0 or r["tsan_reports"] or any("FAIL" in l for l in r["lines"]))]
     obj = {"kind": "gen-matches-mixins-broken",
            "obligation": "gen_matches_mixins (coq/Spin/GenMatchesMixins.v): MixinsGen.gen_mixins = reviewed_mixins",
            "clients": cl, "schedule": sched, "reason_in_model_of_changed_code": why,
@@ -262,7 +328,15 @@ def run(ctx):
             if mix_broken and not search_mixins(ctx, model, tsan_runs):
                 ctx.proof_broken({"obligation": "gen_matches_mixins (coq/Spin/GenMatchesMixins.v): MixinsGen.gen_mixins = reviewed_mixins",
                                   "regenerated_bodies": open(os.path.join(pv.COQ, "Gen", "MixinsGen.v")).read()[-700:]})
-            if not spin_broken and not mix_broken:
+            decl_broken = "GenMatchesDecls" in failed or "Properties_C19_decls" in failed
+            if decl_broken:
+                # declarations (field types, initial values, member list) or the hooks-on variant are not the
+                # reviewed ones: nothing cheap to replay (a narrower counter needs 2^k nested acquisitions)
+                ctx.proof_broken({"obligation": "gen_decls_reviewed / gen_decls_hooks_reviewed / gen_hooks_agree (coq/Spin/GenMatchesDecls.v): the "
+                                                "declarations of Spinlock / RecursiveSpinlock (plain and -DPRIMITIV_VERIF_HOOKS build) are the reviewed ones "
+                                                "and the hooked build is the same program",
+                                  "regenerated_declarations": open(os.path.join(pv.COQ, "Gen", "SpinDecls.v")).read()[:5000]})
+            if not spin_broken and not mix_broken and not decl_broken:
                 ctx.proof_broken()
     finally:
         if pv.REPO != "/repo":   # a scratch run must not leave its SpinGen.v behind
@@ -280,6 +354,7 @@ def run(ctx):
         "a client touches the protected data only while it holds the lock (built into the client model and the harness)",
         "Identifiable: atomicity of constructor/destructor/get_object is PROVED for the bodies read from identifiable.h (every access to next_id_/objects_ under the lock_guard, theorems C19_identifiable_*), assuming std::mutex/std::lock_guard give mutual exclusion and sequentially consistent critical sections; fewer than 2^64-1 objects per type; std::unordered_map is modelled as a finite map; DefaultSettable is NOT synchronised by the library: set_default/get_default/destruction of the default object are assumed confined to one thread at a time",
         "the translators translate/gen_spin.py and translate/gen_mixins.py (clang AST -> Lang.v / MixLang.v) are trusted; they are exercised by the correspondence and ThreadSanitizer runs of the same property",
+        "what is translated: gen_spin reads spinlock.h without AND with -DPRIMITIV_VERIF_HOOKS (every build of /verif defines it); the hooked variant with the scheduling-hook calls erased must be the same program (C19_hooked_build_is_the_same_program) and the declarations of both variants (field types and initial values -- lock_count_ : std::uint32_t --, member list, HookedFlag's two forwarding bodies) must be the reviewed ones (C19_declarations_reviewed*); gen_mixins requires the two variants of the mixin bodies to translate identically and accepts only the plain locking form guard(mutex_) as a lock; primitiv::verif::sched_point (a call through a function pointer that is null outside the harness) is assumed not to touch the lock",
         "progress (Properties_C19_progress.v): no thread of the model is ever stuck -- the 64 units of fuel of Sem.norm suffice for every thread-local run of the regenerated and of the reviewed program (sweep of all reachable local configurations, 11 resp. 10 units are needed) -- and every unfinished thread is enabled; NO LIVENESS is claimed: there is no fairness assumption on the schedules and a test-and-set lock is not starvation-free, so termination of lock() is neither proved nor true; the acquisition theorems are conditional on the thread performing its test_and_set at a moment when the flag is clear",
     ]
 
@@ -289,28 +364,43 @@ def thorough_tsan(ctx, cases, model):
     # the race theorems speak about RecursiveSpinlock with arbitrary clients and about Spinlock with
     # well-bracketed clients: Spinlock cases whose schedule makes a non-holder unlock are left out
     cand = [c for c in cases if c.startswith("run")][:6000]
-    _, wb = pv.run_lines(model, [c.replace("run ", "wb ", 1) for c in cand], timeout=600)
-    sub = [c for c, w in zip(cand, wb) if c.startswith("run R") or w == "wb"][:3000]
+    rc_w, wb = pv.run_lines(model, [c.replace("run ", "wb ", 1) for c in cand], timeout=600)
+    if rc_w != 0 or len(wb) != len(cand) or any(w not in ("wb", "not-wb") for w in wb):
+        ctx.violation("model-wb", {"kind": "model-driver-crash", "rc": rc_w, "answered": len(wb), "asked": len(cand),
+                                   "tail": wb[-3:]}, False,
+                      "the model driver stopped early while selecting the well-bracketed cases for the tsan run (rc=%d, %d of %d answered)"
+                      % (rc_w, len(wb), len(cand)))
+    sub = [c for c, w in zip(cand, padded(cand, wb)) if c.startswith("run R") or w == "wb"][:3000]
     rc, out = pv.sh(impl_t, inp="\n".join(sub) + "\n", timeout=1500, env=TSAN_ENV)
-    n = tsan_reports(out)
-    lines = [l for l in out.splitlines() if l[:1] in "0123456789-|"]
-    _, mo = pv.run_lines(model, sub, timeout=600)
-    bad = pv.diff_outputs(sub, lines, mo) if not n else []
     ctx.cov["tsan_baton_cases"] = len(sub)
-    ctx.cov["tsan_baton_reports"] = n
-    if n or rc not in (0,):
-        ctx.violation("tsan-baton", {"kind": "tsan", "reports": n, "rc": rc, "tail": out[-3000:],
-                                     "witness": "spin :: tsan baton"}, True,
-                      "ThreadSanitizer reports %d data race(s) running the real locks under scheduled interleavings" % n)
-    elif bad:
-        i, c, x, y = bad[0]
-        ctx.violation("tsan-corr", {"kind": "correspondence", "engine": "spin-tsan", "case": c, "impl": x, "model": y,
-                                    "witness": "spin-tsan :: %s" % c, "impl_driver": impl_t, "model_driver": model}, True,
-                      "case `%s` under tsan: `%s` vs `%s`" % (c, x, y))
+    if tsan_env_problem(ctx, "spin_drv.tsan < %d scheduled cases" % len(sub), rc, out):
+        ctx.cov["tsan_baton_reports"] = None
+    else:
+        n = tsan_reports(out)
+        lines = [l for l in out.splitlines() if l[:1] in "0123456789-|"]
+        rc_m, mo = pv.run_lines(model, sub, timeout=600)
+        bad = pv.diff_outputs(sub, lines, mo) if not n else []
+        ctx.cov["tsan_baton_reports"] = n
+        if rc_m != 0:
+            ctx.violation("model-tsan", {"kind": "model-driver-crash", "rc": rc_m, "tail": mo[-3:]}, False,
+                          "model driver failed on the tsan cases (rc=%d)" % rc_m)
+        if n or rc not in (0,):
+            ctx.violation("tsan-baton", {"kind": "tsan", "reports": n, "rc": rc, "tail": out[-3000:],
+                                         "witness": "spin :: tsan baton"}, bool(n) or rc != 124,
+                          "ThreadSanitizer reports %d data race(s) running the real locks under scheduled interleavings (driver rc=%d, %d of %d cases answered)"
+                          % (n, rc, len(lines), len(sub)))
+        elif bad:
+            i, c, x, y = bad[0]
+            ctx.violation("tsan-corr", {"kind": "correspondence", "engine": "spin-tsan", "case": c, "impl": x, "model": y,
+                                        "witness": "spin-tsan :: %s" % c, "impl_driver": impl_t, "model_driver": model}, True,
+                          "case `%s` under tsan: `%s` vs `%s`" % (c, x, y))
     stress = []
     for i in range(4):
         seed = ctx.rng.randrange(1, 10 ** 6)
         rc, out = pv.sh("%s stress %d %d %d" % (impl_t, seed, 6, 4000), timeout=1500, env=TSAN_ENV)
+        if tsan_env_problem(ctx, "spin_drv.tsan stress %d 6 4000" % seed, rc, out):
+            stress.append({"seed": seed, "rc": rc, "tsan_reports": None, "lines": [], "environment_problem": True})
+            break
         k = tsan_reports(out)
         stress.append({"seed": seed, "rc": rc, "tsan_reports": k, "lines": [l for l in out.splitlines() if l.startswith("stress")]})
         if rc != 0 or k or "FAIL" in out:
@@ -326,6 +416,9 @@ def replay(ctx, obj):
     if obj.get("harness_args"):   # Identifiable: free-running replay under ThreadSanitizer
         impl_t = pv.build_harness("tsan", "spin_drv", HARNESS_EXTRA)
         rc, out = pv.sh("%s %s" % (impl_t, obj["harness_args"]), timeout=600, env=TSAN_ENV)
+        if TSAN_START_RE.search(out):
+            print("ThreadSanitizer could not start in this environment (%s): nothing replayed" % TSAN_START_RE.search(out).group(0).strip()[:200])
+            return 1
         print("\n".join(l for l in out.splitlines() if l.startswith(("idrace", "stress"))))
         print("ThreadSanitizer reports: %d, rc=%d" % (tsan_reports(out), rc))
         return 1 if (rc != 0 or tsan_reports(out) or "FAIL" in out) else 0
